@@ -105,6 +105,8 @@ pub enum St {
     Verneed,
     Vernaux,
     AbiTag,
+    Word32,
+    Word64,
 }
 
 pub const ALL_ST: [St; 17] = [
@@ -176,6 +178,8 @@ static VERDEF: [FieldDef; 7] = [f("vd_version", 2), f("vd_flags", 2), f("vd_ndx"
 static VERDAUX: [FieldDef; 2] = [f("vda_name", 4), f("vda_next", 4)];
 static VERNEED: [FieldDef; 5] = [f("vn_version", 2), f("vn_cnt", 2), f("vn_file", 4), f("vn_aux", 4), f("vn_next", 4)];
 static VERNAUX: [FieldDef; 5] = [f("vna_hash", 4), f("vna_flags", 2), f("vna_other", 2), f("vna_name", 4), f("vna_next", 4)];
+static WORD32: [FieldDef; 1] = [f("v", 4)];
+static WORD64: [FieldDef; 1] = [f("v", 8)];
 static ABITAG: [FieldDef; 4] = [f("os", 4), f("major", 4), f("minor", 4), f("subminor", 4)];
 
 pub fn layout(st: St, c64: bool) -> &'static [FieldDef] {
@@ -205,6 +209,8 @@ pub fn layout(st: St, c64: bool) -> &'static [FieldDef] {
         (St::Verneed, _) => &VERNEED,
         (St::Vernaux, _) => &VERNAUX,
         (St::AbiTag, _) => &ABITAG,
+        (St::Word32, _) => &WORD32,
+        (St::Word64, _) => &WORD64,
     }
 }
 
